@@ -17,7 +17,11 @@ pub struct FileObs { pub data: Vec<u8>, pub err: Option<String> }
 /// open, list, read every file in the given order (index order when empty); panics are observations
 pub fn observe(bytes: &[u8], cfg: &Cfg, order: &[String]) -> Result<(Vec<String>, Vec<(String, FileObs)>), String> {
     let r = std::panic::catch_unwind(std::panic::AssertUnwindSafe(|| {
-        let mut r = ArchiveReader::from_config(Cursor::new(bytes), cfg.reader_config()).map_err(|e| err_class(&e))?;
+        // the repair options of the reader configuration are documented as fail-safe-reader only: set or not,
+        // the normal reader must behave the same (chosen from the bytes, so that a replay does the same)
+        let mut rc = cfg.reader_config();
+        match fnv(&bytes[..bytes.len().min(64)]) % 3 { 0 => { rc.failsafe_return_data_even_unauthenticated(); } 1 => { rc.failsafe_return_only_authenticated_data(); } _ => {} }
+        let mut r = ArchiveReader::from_config(Cursor::new(bytes), rc).map_err(|e| err_class(&e))?;
         let mut names: Vec<String> = r.list_files().map_err(|e| err_class(&e))?.cloned().collect();
         names.sort();
         let ord: Vec<String> = if order.is_empty() { names.clone() } else { order.to_vec() };
@@ -91,10 +95,12 @@ fn check_edit(rep: &mut Report, model: &mut Model, cfg: &Cfg, ops: &[Op], b: &Bu
     // chunk boundary is, for the reader, a genuine archive of the plaintext before the cut
     // (`C03.truncation_accepted`): whatever the reader then makes of that plaintext (an index found in
     // file content, planted or accidental; names missing or foreign) is this one weakness.  It is
-    // identified by the situation, not by the symptom.
+    // identified by the situation, not by the symptom.  A cut that leaves exactly one tag's worth of bytes
+    // after a chunk boundary is the same situation: the reader takes them for the tag of an empty last
+    // chunk, which nothing ever reads (the end position is a function of the length only, `C03.endpos`).
     let d14 = {
         let h = parse_header(&b.bytes).map(|h| h.header_len).unwrap_or(usize::MAX);
-        altered.len() < b.bytes.len() && altered.len() > h && b.bytes.starts_with(&altered) && (altered.len() - h) % (CONSTS.chunk + TAG) == 0
+        altered.len() < b.bytes.len() && altered.len() > h && b.bytes.starts_with(&altered) && { let r = (altered.len() - h) % (CONSTS.chunk + TAG); r == 0 || r == TAG }
     };
     let sig = |what: &str| if d14 { json!({"what": "truncated-at-chunk-boundary", "symptom": what, "edit": kind, "layers": cfg.layers}) } else { json!({"what": what, "edit": kind, "layers": cfg.layers}) };
     let obs = observe(&altered, cfg, order);
